@@ -409,7 +409,7 @@ impl Heap {
         match name {
             "directed" => (name, directed()[i as usize].1.to_string()),
             "one-machine-many-compilers" => (name, machine_programs(&mut r, ctx.flavour != Flavour::Miri).join("\n//---- next program, fresh compiler\n")),
-            "long-runs" => (name, long_run((i as usize) % LONG_RUNS, [400_000, 1_200_000, 3_000_000][(i as usize) / LONG_RUNS]).0),
+            "long-runs" => (name, long_run((i as usize) % LONG_RUNS, long_run_size(ctx, i)).0),
             "scale" => (name, crate::scale::heap_programs(ctx.flavour == Flavour::Rel && ctx.tier == Tier::Thorough)[i as usize].1.clone()),
             "valgrind" => {
                 let d = directed();
@@ -570,6 +570,20 @@ fn machine_programs(r: &mut Rng, use_reference: bool) -> Vec<String> {
 
 const LONG_RUNS: usize = 9;
 const LONG_RUN_NAMES: [&str; LONG_RUNS] = ["floats-into-old-array", "strings-into-old-array", "arrays-into-old-array", "old-globals", "inside-a-function", "through-an-old-outer-array", "old-array-from-an-earlier-loop", "a-collection-per-iteration", "a-collection-per-iteration-deep-recursion"];
+
+/// loop iterations of long-run case `i`: the templates with a collection in every iteration are audited at every one of
+/// them (the reachable set is recomputed each time) and run under AddressSanitizer as well, so they are smaller — still
+/// beyond 2^16 collections
+fn long_run_size(ctx: &Ctx, i: u64) -> usize {
+    let template = (i as usize) % LONG_RUNS;
+    let step = (i as usize) / LONG_RUNS;
+    match (template >= 7, ctx.flavour == Flavour::Rel) {
+        (false, true) => [400_000, 1_200_000, 3_000_000][step],
+        (false, false) => 400_000,
+        (true, true) => [150_000, 300_000, 600_000][step],
+        (true, false) => 70_000,
+    }
+}
 
 /// (program, value): an array that has survived a collection receives fresh heap values in a loop of `n` iterations that
 /// also makes garbage; after the loop (and one more collection) everything is read back
@@ -803,7 +817,7 @@ impl Check for Heap {
             }
             "long-runs" => {
                 heapmon::install();
-                let iterations = [400_000usize, 1_200_000, 3_000_000][(i as usize) / LONG_RUNS];
+                let iterations = long_run_size(ctx, i);
                 let (text, want) = long_run((i as usize) % LONG_RUNS, iterations);
                 let mut cfg = Self::cfg(ctx);
                 cfg.budget = Some(iterations as u64 * 80);
